@@ -102,7 +102,20 @@ pub async fn run_case(case: Vec<String>, detail: bool) -> String {
         m = method, to = to_line, extra = extra_headers
     );
     let request = request_from_text(&endpoint, text.as_bytes());
-    let mut target = TargetTransportInfo { via_host_port: None, transport: Some((tp.clone(), dest)) };
+    // field 11: the sent-by to put into the Via instead of the transport's own address (a public address found by STUN, a gateway name);
+    // "~" stands for the colon in front of the port
+    let via_host_port = case.get(11).filter(|s| !s.is_empty() && s.as_str() != "-").map(|s| {
+        let (h, p) = match s.split_once('~') {
+            Some((h, p)) => (h, p.parse::<u16>().ok()),
+            None => (s.as_str(), None),
+        };
+        let host = match h.parse::<std::net::IpAddr>() {
+            Ok(ip) => sip_types::host::Host::from(ip),
+            Err(_) => sip_types::host::Host::Name(h.to_string().into()),
+        };
+        sip_types::host::HostPort { host, port: p }
+    });
+    let mut target = TargetTransportInfo { via_host_port, transport: Some((tp.clone(), dest)) };
 
     let evlog: EvLog = Default::default();
     let start = clock.0;
